@@ -6,6 +6,8 @@
 set -u
 PID=$1; N=$2; shift 2; EXTRA="$*"
 WT=/tmp/wt-$PID; S=$WT/SEED/$N
+if [ ! -d $WT ]; then git -C /repo worktree add -q --detach $WT HEAD || exit 2; fi
+if [ ! -f $S/patch.diff ] && [ -f /verif/seeded/$PID-$N/patch.diff ]; then mkdir -p $S; cp /verif/seeded/$PID-$N/* $S/; fi
 [ -f $S/patch.diff ] || { echo "no $S/patch.diff"; exit 2; }
 . /verif/env.sh
 clean() { git -C $WT checkout -q -- . ; git -C $WT clean -fdq -e SEED ; }
